@@ -127,6 +127,13 @@ def wrap(
     # computed below has the same length as the text it is sliced from.
     text = text.expandtabs()
 
+    # Leading whitespace (kept in detached comments) carries no meaning, and
+    # textwrap may drop it from the first line, which then would no longer be
+    # a prefix of the text it is sliced from below.
+    text = text.lstrip()
+    if not text:
+        return ""
+
     # Protocol buffers preserves single initial spaces after line breaks
     # when parsing comments (such as the space before the "w" in "when" here).
     # Re-wrapping causes these to be two spaces; correct for this.
